@@ -571,6 +571,14 @@ func Sawtooth(r *rand.Rand, w int, cx, cy int64) exact.Ring {
 // enough for the quadtree index to split.
 func RandBigRing(r *rand.Rand) exact.Ring {
 	var ring exact.Ring
+	if r.Intn(12) == 0 {
+		// more than 256 segments: two-byte item encodings in the compressed indexes
+		ring = Sawtooth(r, 128+r.Intn(14), -int64(r.Intn(200)), -int64(r.Intn(10)))
+		if r.Intn(2) == 0 {
+			ring = Reverse(ring)
+		}
+		return Rotate(ring, r.Intn(len(ring)))
+	}
 	switch r.Intn(3) {
 	case 0:
 		ring = Sawtooth(r, 17+r.Intn(20), -int64(r.Intn(40)), -int64(r.Intn(10)))
